@@ -85,3 +85,29 @@ CONFIGS["C22"] = dict(
     assumptions=["acceptance is only demanded for tokens whose kid names a key published from the start, while the IdP is reachable"],
     required_probes=["presentations", "accepted", "idp-unreachable-or-timeout"],
 )
+
+BCRYPT_KNOB = ["internal/server/auth/hash.go:bcryptCost=4"]
+
+CONFIGS["C31"] = dict(
+    prop="C31", engine="users-hist", pkg="internal/server/auth", harness="C31",
+    level="exploration",
+    level_text="seeded histories of write / delete / read / list (masked and unmasked) / set-permission / get-permission(s) / "
+               "flush / close-and-reopen / time advance / cache purge applied to the real file-backed and the real "
+               "database-backed user store side by side (the latter with the real AuthCache and its sweeper on the fake "
+               "clock); after every operation both stores must answer identically (values and error/no-error) and like a "
+               "plain map; after flush + close + reopen the answers must be unchanged.",
+    technique="differential reference-model refinement over seeded histories with fake clock and reopen",
+    rewrite=dict(dirs=ALL_INTERNAL, consts=BCRYPT_KNOB),
+    extra_files=[CACHES_EXPORT],
+    race="none",
+    quick=dict(runs=1500, per_proc=100, budget_s=240),
+    thorough=dict(runs=100000, per_proc=1000, budget_s=1500),
+    det_seeds=24,
+    rule="histories of 10-39 operations over 5 user names (incl. a case variant), 4 permissions, nil / empty / non-empty "
+         "permission lists, three credential shapes; non-trivial = >=4 operations; distinct = distinct history hash",
+    real=["auth.NewFileService and NewDatabaseService (resources + SQLite file)", "setPermission / GetPermission / GetPermissions", "caches.AuthCache with sweeper"],
+    stubbed=["bcrypt cost 12 -> 4 for the default-user hash made when a store is created (pure cost knob, rule R6)", "time: synctest fake clock", "sync: scheduling shim"],
+    assumptions=["masked listings are compared only as 'is redacted' (the two stores use different placeholders)", "an empty permission list and an absent one are not distinguished in answers",
+                 "ids are supplied by the caller (the stores do not generate them for written users)"],
+    required_probes=["reopens", "operations"],
+)
